@@ -112,13 +112,13 @@ RULESETS = {
          'R-PRIMITIVES', 'R-NEAREST-WE', ('R-ACCUMULATE', ['Traph.get_webentity_child_webentities_iter'])] + MONO + [('R-WRAPPERS', ['Traph.get_webentity_child_webentities'])] + ['R-NODE-ALIAS'] + G('C13'),
  'C14': ['R-READONLY', 'R-WRITE-API'],
  'C15': ['R-STORAGE-IFACE', 'R-STORAGE-SEM', 'R-OPEN-TABLE', 'R-CLEAR-AGREE', 'R-READ-RESETS', 'R-STORAGE-STATELESS'] + G('C15'),
- 'C16': ['R-FRESH', 'R-DIRTY-WRITTEN', 'R-STACK-BLOCKS', 'R-NO-STALE-CACHE', ('R-FILTER-AGREE', NETWORK), ('R-MEMO-KEY', NETWORK), 'R-DIRECTION', 'R-LINK-PAIR',
+ 'C16': ['R-FRESH', 'R-DIRTY-WRITTEN', 'R-STACK-BLOCKS', 'R-NO-STALE-CACHE', ('R-FILTER-AGREE', NETWORK + WE_FILTERS), 'R-HEAD-REPOINT', ('R-MEMO-KEY', NETWORK), 'R-DIRECTION', 'R-LINK-PAIR',
          'R-PRIMITIVES', 'R-READ-RESETS', 'R-ACCUMULATE'] + ['R-WRAPPERS'] + ['R-NODE-ALIAS'] + ['R-EVERY-ITEM'] + G('C16'),
  'C17': ['R-VARIATIONS', 'R-LADDER-AGREE', 'R-ID', 'R-NO-STALE-CACHE'] + G('C17'),
  'C18': ['R-OPEN-TABLE', 'R-POINTEE-FIRST', 'R-GEOMETRY', 'R-NONE-CHECK', 'R-STORAGE-IFACE', 'R-HEAD-REPOINT', 'R-FRESH', 'R-DIRTY-WRITTEN', 'R-TAIL-PROTOCOL',
          'R-STORAGE-STATELESS', 'R-PRIMITIVES', 'R-CLOSE'] + ['R-CHUNK-LAST', 'R-READ-RESETS'] + G('C18'),
  'C19': ['R-CHUNK-LAST', 'R-ALLOC', 'R-GEOMETRY', 'R-METRICS', 'R-HEAD-REPOINT', 'R-LINK-PAIR', 'R-LINK-WALK', 'R-FRESH', 'R-DIRTY-WRITTEN', 'R-TAIL-PROTOCOL', 'R-READ-RESETS',
-         'R-BST-AGREE', 'R-STORAGE-SEM', 'R-STORAGE-STATELESS', 'R-PRIMITIVES'] + ['R-CLEAR-AGREE', 'R-EVERY-ITEM'] + G('C19'),
+         'R-BST-AGREE', 'R-STORAGE-SEM', 'R-STORAGE-STATELESS', 'R-PRIMITIVES'] + ['R-CLEAR-AGREE', 'R-EVERY-ITEM'] + ['R-STORAGE-IFACE'] + G('C19'),
  'C20': [('R-NULL-HEAD', MOST_LINKED), 'R-DISTINCT-DEGREE', 'R-TOPK', 'R-LINK-PAIR', 'R-LINK-WALK', 'R-HEAD-REPOINT', ('R-ACCUMULATE', MOST_LINKED)] + WALK + READ_BASICS + [('R-WRAPPERS', ['Traph.get_webentity_most_linked_pages'])] + [('R-FILTER-AGREE', MOST_LINKED)] + G('C20'),
 }
 
